@@ -214,6 +214,9 @@ def run(cfg, R):
                     G.append((f"fault at iteration {i} => loss history[{j}] is the reference loop's", implies(isF[i], feq(out[1][j], refs[j][1][()]))))
                     G.append((f"fault at iteration {i} => term histories[{j}] are the reference loop's",
                               implies(isF[i], tm.conj([feq(out[2][k][j], refs[j][2][k][()]) for k in out[2]]))))
+                    # tracked parameters: the value after update j, NaN included at the failing iteration
+                    G.append((f"fault at iteration {i} => tracked-parameter histories[{j}] are the reference loop's (the parameters after update {j})",
+                              implies(isF[i], tm.conj([feq(out[6].eq_params[k][j], refs[j][0].eq_params[k][()]) for k in ("theta", "kappa")]))))
                 else:
                     G.append((f"fault at iteration {i} => loss history[{j}] is left untouched (0)", implies(isF[i], feq(out[1][j], const(0, "Real")))))
                     G.append((f"fault at iteration {i} => term histories[{j}] are left untouched (0)",
